@@ -63,7 +63,8 @@ def index_programs():
 def core_program(rng, depth=4):
     """a random closed program of the fragment of the call-by-name reference semantics (ByName.BN): integer literals, function
     definitions and calls, argument references with static and computed positions into any enclosing frame, the Boolean
-    constants, Boolean selection, ㄴ and ㄷ on two integers — typed, so that most programs have a value"""
+    constants, Boolean selection, ㄴ / ㄷ / ㄱ / ㅈ on two integers, list construction ㅁㄹ and selection from a list (literal or parameter; the
+    other elements may be anything) — typed, so that most programs have a value"""
     from ..gen import enc
     def gint(d, scope):
         c = rng.random()
@@ -79,15 +80,39 @@ def core_program(rng, depth=4):
             return f"({gint(d - 1, scope)} {gint(d - 1, scope)} ㄱㅎㄷ)"
         if c < 0.55:
             return f"({gint(d - 1, scope)} {gint(d - 1, scope)} {gbool(d - 1, scope)} ㅎㄷ)"
+        lists = [(fi, pi, ty) for fi, fr in enumerate(reversed(scope)) for pi, ty in enumerate(fr) if isinstance(ty, tuple)]
+        if c < 0.63:              # selection from a list literal / a list parameter: only the selected element is evaluated
+            if lists and rng.random() < 0.5:
+                fi, pi, (_, n_, good) = rng.choice(lists)
+                lst = f"{enc(pi)}ㅇ{enc(fi)}"
+            else:
+                lst, (_, n_, good) = glist(d - 1, scope)
+            k = rng.choice(good)
+            idx = k if rng.random() < 0.6 else k - n_
+            return f"({enc(idx) if rng.random() < 0.7 else '(' + enc(idx) + ' ㄱ ㄷㅎㄷ)'} {lst} ㅎㄴ)"
         if c < 0.7 and ints:      # computed position: (p + 0) selects parameter p of that frame
             fi, pi = rng.choice(ints)
             return f"(({enc(pi)} ㄱ ㄷㅎㄷ) ㅇ{enc(fi)})"
         # a call of a function defined on the spot, with 1–3 parameters (some of them never used: they may even be ill-typed)
         k = rng.randint(1, 3)
-        tys = [rng.choice(['int', 'int', 'bool']) for _ in range(k)]
-        args = [gint(d - 1, scope) if ty == 'int' else gbool(d - 1, scope) for ty in tys]
+        tys, args = [], []
+        for _ in range(k):
+            ty = rng.choice(['int', 'int', 'bool', 'list'])
+            if ty == 'list':
+                a, ty = glist(d - 1, scope)
+            else:
+                a = gint(d - 1, scope) if ty == 'int' else gbool(d - 1, scope)
+            tys.append(ty); args.append(a)
         body = gint(d - 1, scope + [tys])
         return f"({' '.join(args)} ({body} ㅎ) ㅎ{enc(k)})"
+    def glist(d, scope):
+        # a list literal of 1–4 elements; the elements at the `good` positions are integers, the others anything at all —
+        # failing, ill-typed, Booleans — since nobody may select them
+        n_ = rng.randint(1, 4)
+        good = sorted(rng.sample(range(n_), rng.randint(1, n_)))
+        JUNK = ["(ㄴ ㄷㅂㅎㄴ ㄷㅈㅎㄴ)", "(ㄴ ㄱ ㄴㄴㅎㄷ)", "(ㅈㅈㅎㄱ)", "(ㄱ ㄴ ㅎㄴ)", "(ㅈㅈㅈㅈㅈ ㅎㄱ)"]
+        elems = [gint(d - 1, scope) if i in good else rng.choice(JUNK) for i in range(n_)]
+        return f"({' '.join(elems)} ㅁㄹㅎ{enc(n_)})", ('list', n_, good)
     def gbool(d, scope):
         c = rng.random()
         bools = [(fi, pi) for fi, fr in enumerate(reversed(scope)) for pi, ty in enumerate(fr) if ty == 'bool']
